@@ -408,7 +408,7 @@ PEARL_SUMMARIES = [
 # callees that are replaced by "arbitrary value of their type + event" in every obligation (error construction,
 # formatting, conversions whose values no obligation inspects)
 DEFAULT_HAVOC = [
-    r"^<str as ToString>::to_string$", r"^<.* as From<.*>>::from$", r"^<.* as Into<.*>>::into$",
+    r"^<.* as ToString>::to_string$", r"^<.* as ToOwned>::to_owned$", r"^<.* as From<.*>>::from$", r"^<.* as Into<.*>>::into$",
     r"^Arguments::", r"^core::fmt::", r"^std::fmt::", r"^log::__private_api::", r"^anyhow::",
     r"::with_context$", r"::context$", r"^<.* as Clone>::clone$", r"^<.* as Debug>::fmt$", r"^<.* as Display>::fmt$",
     r"^alloc::fmt::format$", r"^std::fmt::format$", r"^format$", r"^alloc::fmt::format::format_inner$",
